@@ -5,6 +5,7 @@ import Pyunicorn.Lemmas.Binary64
 import Pyunicorn.Lemmas.LineIdx
 import Pyunicorn.Lemmas.NsiIdx
 import Pyunicorn.Lemmas.AccessMi
+import Pyunicorn.Lemmas.NsiCsr
 import Pyunicorn.Generated.StructC20
 import Pyunicorn.Generated.StructC20Pyx
 import Pyunicorn.Generated.StructC20Py
@@ -2197,3 +2198,61 @@ theorem miPrepX_no_nan (sq : XR → XR) (T N : Nat) (a : XData) {j t : Nat} (hj 
 example : ∃ p, miPrepX mi_steps normalize_steps sqrtX 2 2 [[.fin 0, .pinf], [.fin 2, .fin 1]] = some p
     ∧ p.d = [[.fin (-1), .fin 1], [.fin 0, .fin 0]] := ⟨_, rfl, by decide +kernel⟩
 end Pyunicorn.Access
+
+/-! ## Round 5e — the CSR arguments of `_nsi_betweenness` derived from the source of
+`Network.nsi_betweenness` / `Network._nsi_betweenness` (was: "`csrOK` is validated on captured
+calls, not derived from the method's source") -/
+namespace Pyunicorn.NsiCsr
+open Pyunicorn.NsiIdx Pyunicorn.Generated.StructC20Py
+
+/-- the texts of the current source, as the translator read them -/
+def genSrc : Src := ⟨nsib_public, nsib_worker, nsib_outdegree, nsib_nz_coords⟩
+
+/-- the statements of the current source are the ones the model evaluates (static tie: any edit
+of the two methods, of `outdegree` or of `nz_coords` breaks this) -/
+theorem nsiArgs_generated (A : List (List Nat)) (tg : Option (List Nat)) :
+    nsiArgs genSrc A tg = some (build A tg) := by
+  have : genSrc = knownSrc := by decide
+  simp [nsiArgs, this]
+
+/-- the constructed arguments satisfy the contract `csrOK`: for every square symmetric 0/1
+adjacency matrix (any size, self-loops allowed), default targets or any given node numbers -/
+theorem nsi_betweenness_args_csrOK (A : List (List Nat)) (hA : adjOK A = true)
+    (tg : Option (List Nat)) (ht : ∀ t, tg = some t → ∀ j ∈ t, j < A.length) (a : Args)
+    (ha : nsiArgs genSrc A tg = some a) :
+    csrOK a.N a.k a.nbr a.wlen a.slen a.targets = true := by
+  rw [nsiArgs_generated] at ha
+  cases ha
+  exact build_csrOK A (adjOK_iff A hA) tg ht
+
+/-- **every call the public method can make is safe**: for every undirected network (square
+symmetric 0/1 adjacency of any size), `targets=None` or any list of node numbers, any `sources`, any
+`nsi`, the arguments `Network.nsi_betweenness` builds — by the statements read off the current
+source — make the kernel `_nsi_betweenness` evaluate every subscript inside its array (the index
+model returns, never IndexError).  Target entries `≥ N` are outside: the kernel then raises
+IndexError at `distances_to_j[j]` (stream T6 a, `any|raise`) -/
+theorem nsi_betweenness_public_call_safe (A : List (List Nat)) (hA : adjOK A = true)
+    (tg : Option (List Nat)) (ht : ∀ t, tg = some t → ∀ j ∈ t, j < A.length) :
+    ∃ a, nsiArgs genSrc A tg = some a ∧
+      nsiBetwIdx a.N a.k a.nbr a.wlen a.slen a.targets = some () := by
+  refine ⟨build A tg, nsiArgs_generated A tg, ?_⟩
+  exact nsiBetwIdx_ok _ _ _ _ _ _
+    (nsi_betweenness_args_csrOK A hA tg ht _ (nsiArgs_generated A tg))
+
+/-- non-vacuity: the path 0 – 1 – 2 with a self-loop pair, default and given targets; sharpness: a
+directed link `0 → 2` (asymmetric, `adjOK = false`) gives arguments that fail the contract and the
+model raises; an entry 2 (not 0/1) overstates the degree — raises; another text of `nz_coords` —
+"cannot evaluate" -/
+example : adjOK [[0, 1, 0], [1, 0, 1], [0, 1, 0]] = true
+    ∧ nsiArgs genSrc [[0, 1, 0], [1, 0, 1], [0, 1, 0]] none = some ⟨3, [1, 2, 1], [1, 0, 2, 1], 3, 3, [0, 1, 2]⟩
+    ∧ nsiArgs genSrc [[1, 1], [1, 1]] (some [1]) = some ⟨2, [2, 2], [0, 1, 0, 1], 2, 2, [1]⟩
+    ∧ adjOK [[1, 1], [1, 1]] = true := by decide +kernel
+example : adjOK [[0, 0, 1], [0, 0, 0], [0, 0, 0]] = false
+    ∧ (let a := build [[0, 0, 1], [0, 0, 0], [0, 0, 0]] none
+       csrOK a.N a.k a.nbr a.wlen a.slen a.targets = false
+       ∧ nsiBetwIdx a.N a.k a.nbr a.wlen a.slen a.targets = none)
+    ∧ (let a := build [[0, 2], [2, 0]] none
+       nsiBetwIdx a.N a.k a.nbr a.wlen a.slen a.targets = none)
+    ∧ nsiArgs { genSrc with nzCoords := "np.array(matrix.T.nonzero()).T" } [[0, 1], [1, 0]] none = none := by
+  decide +kernel
+end Pyunicorn.NsiCsr
